@@ -215,6 +215,21 @@ func genC06(r *rng, tier string) *Case {
 	}
 	nIds := ts + 1 + len(p.MU)
 	costs, ck := genCosts(r, nIds, costStages, p.N)
+	if len(p.Stages) > 0 && p.Src == "numbers" && r.chance(0.15) {
+		// a let-bound prefix used by several goroutines of the same evaluation at once
+		p.Shared = r.rangeInt(1, 6)
+		p.Split = r.rangeInt(1, len(p.Stages))
+		if p.N > 300 {
+			p.N = pick(r, 13, 30, 100, 300)
+		}
+		if p.Shared == 2 {
+			for len(costs) <= sharedCostID {
+				costs = append(costs, CostProf{})
+			}
+			costs[sharedCostID] = CostProf{Base: pick(r, int64(0), 300_000, 300_000, 400_000)}
+		}
+		ck += "/shared"
+	}
 	host := HostTables{Costs: costs}
 	full := !short && p.Term.Op != "listeq" // a comparison may be decided without reading everything
 	for _, s := range p.Stages {
@@ -784,8 +799,16 @@ func genC08(r *rng, tier string) *Case {
 	if m := 2*(need+offset) + 30; p.N < m {
 		p.N = m
 	}
+	// a list value that is used twice: consumed completely first, then by the short-circuit consumer
+	reuse := false
+	if second == "" && x.SparseAt == 0 && term != "multiUse" && k <= 60 && r.chance(0.12) {
+		reuse = true
+		p.Reuse = pick(r, "reduce", "sum", "minMax", "presentfalse", "size", "last", "multiUse", "string", "mapReduce")
+		p.N = max(2*(need+offset)+30, pick(r, 40, 64, 100, 300))
+		x.Reuse, x.N = true, p.N
+	}
 	host := HostTables{Costs: costs}
-	if r.chance(0.35) && second == "" {
+	if r.chance(0.35) && second == "" && !reuse {
 		// a failing source element somewhere relative to the decisive one
 		f := need + pick(r, -3, -1, 0, 1, 2, 3, 5, 8, 20, 50, 200, 1000)
 		if f >= 0 {
